@@ -90,12 +90,14 @@ def main():
         meta["caught"] = any(v["exit"] == 1 for v in detected.values())
         dst = os.path.join(VERIF, "seeded", name)
         os.makedirs(dst, exist_ok=True)
-        shutil.copy(patch, os.path.join(dst, "patch.diff"))
-        shutil.copy(demo, os.path.join(dst, os.path.basename(demo)))
+        if os.path.realpath(os.path.dirname(patch)) != os.path.realpath(dst):
+            shutil.copy(patch, os.path.join(dst, "patch.diff"))
+            shutil.copy(demo, os.path.join(dst, os.path.basename(demo)))
         readme = os.path.join(src, "README.md")
         needs = ""
         if os.path.exists(readme):
-            shutil.copy(readme, os.path.join(dst, "README.md"))
+            if os.path.realpath(readme) != os.path.realpath(os.path.join(dst, "README.md")):
+                shutil.copy(readme, os.path.join(dst, "README.md"))
             needs = open(readme).read()[:1500]
         meta["breaks"] = prop
         meta["needs_to_manifest"] = needs
